@@ -10,11 +10,14 @@
 (* Order restrictions (timing assumptions of the harness, DESIGN 5):       *)
 (*   - the stagger timer (250 ms) fires only when the requester has        *)
 (*     nothing left to do with what it has received so far;                *)
+(*   - scripts are bounded by MaxEnv environment steps;                     *)
 (*   - the caller's context is cancelled only after the script, when the   *)
 (*     requester has come to rest (the harness waits; on a mismatch it     *)
 (*     re-runs with a ten times longer wait before reporting).             *)
 (***************************************************************************)
 EXTENDS CCBDial, Json
+
+CONSTANT MaxEnv   \* total number of broker replies / messages and reverse connections in a script
 
 VARIABLES hist
 
@@ -30,19 +33,22 @@ CanConsume(b) == Running /\ att[b].st \in {"ok", "err"} /\ ~att[b].consumed
 Quiescent == /\ \A b \in Brokers : ~CanAccept(b) /\ ~CanSelect(b) /\ ~CanRead(b) /\ ~CanConsume(b)
              /\ ~(Running /\ cancelled)
 
+EnvSteps == Cardinality({i \in DOMAIN hist : hist[i].e \in {"arrive", "reply", "send"}})
+Budget == EnvSteps < MaxEnv
+
 GenInit == Init /\ hist = <<>>
 
 GenNext ==
   \/ LaunchFirst /\ Log([e |-> "req", b |-> 1])
-  \/ Quiescent /\ ~envDone /\ LaunchByTimer /\ Log([e |-> "req", b |-> launched + 1])
+  \/ Quiescent /\ LaunchByTimer /\ Log([e |-> "req", b |-> launched + 1])
   \/ \E b \in Brokers :
        \/ AcceptStep(b) /\ UNCHANGED hist
        \/ AttemptSelect(b) /\ UNCHANGED hist
        \/ ProxyRead(b) /\ UNCHANGED hist
        \/ DialConsume(b) /\ (IF launched' > launched THEN Log([e |-> "req", b |-> launched']) ELSE UNCHANGED hist)
-       \/ \E k \in HelloKinds : EnvArrive(b, k) /\ Log([e |-> "arrive", b |-> b, k |-> k])
-       \/ \E r \in {"ok", "fail"} : EnvReply(b, r) /\ Log([e |-> "reply", b |-> b, r |-> r])
-       \/ \E m \in ProxyMsgs : EnvSend(b, m) /\ Log([e |-> "send", b |-> b, m |-> m])
+       \/ \E k \in HelloKinds : Budget /\ EnvArrive(b, k) /\ Log([e |-> "arrive", b |-> b, k |-> k])
+       \/ \E r \in {"ok", "fail"} : Budget /\ EnvReply(b, r) /\ Log([e |-> "reply", b |-> b, r |-> r])
+       \/ \E m \in ProxyMsgs : Budget /\ EnvSend(b, m) /\ Log([e |-> "send", b |-> b, m |-> m])
   \/ DialCancelled /\ UNCHANGED hist
   \/ EnvStop /\ Log([e |-> "stop"])
   \/ Quiescent /\ EnvCancel /\ Log([e |-> "cancel"])
